@@ -2,7 +2,7 @@
 Direct oracle (independent of the Lean model): write -> read_string -> compare the two trees under the
 property's equivalence -> write again (idempotence), under sampled option vectors."""
 import re, struct
-import gen_api, gen_text
+import gen_api, gen_text, vlib
 from vlib import Rng, hexs
 import props
 from props import correspondence, first_word
@@ -154,7 +154,34 @@ def option_ops(rng):
             'set_tab_width %d' % rng.choice([0, 1, 2, 4, 8, 15, 16, 100]),
             'set_default_format %d' % rng.below(2)]
 
+K_DEEP = 'C01:nesting-beyond-parser-stack'
+
+def c01_deep(ctx):
+    """trees nested up to and beyond what the reader's parser stack admits, built through the API (not by reading)"""
+    listed = {f['key']: f['what'] for f in vlib.known_findings('C01')}
+    cases = [('list', 10), ('group', 10), ('list', 1000), ('group', 1000), ('list', 1666), ('group', 1666), ('list', 4990), ('list', 5000), ('group', 5000)]
+    def fn(impl, rng, stats):
+        for k, n in cases:
+            impl.do('c01deep %s %d' % (k, n)); stats['c01:deep:%s:%d' % (k, n)] = 1
+    def oracle(ops, outs):
+        for i, (o, r) in enumerate(zip(ops, outs)):
+            w = o.split(' ')
+            if w[0] != 'c01deep' or r in ('<crashed>', '<dead>'):
+                continue
+            f = r.split(' ')
+            if f[0] == '1' and f[2] == '1':
+                continue
+            if f[0] == '0' and f[1] == b'memory exhausted'.hex() and int(w[2]) > 1666 and K_DEEP in listed:
+                k = K_DEEP + ': ' + listed[K_DEEP]
+                if k not in ctx['known_hits']:
+                    ctx['known_hits'].append(k)
+                continue
+            return i, 'a tree of %s nested %ss was written as text that does not read back to the same text: %s' % (w[2], w[1], r)
+        return None
+    correspondence(ctx, [fn], lambda op, out: None, oracle, 'C01 write/read round trip', 'deep-nesting')
+
 def run_C01(ctx):
+    c01_deep(ctx)
     known_hits = ctx['known_hits']
     n_hist, n_ops, n_opt = (4, 120, 4) if ctx['tier'] == 'quick' else (40, 300, 12)
     # (1) trees built by API histories
